@@ -9,7 +9,7 @@ from autobean_refactor.models.internal.surrounding_comments import SurroundingCo
 
 CASES = {'quick': 1500, 'thorough': 40000}
 GATES = {
-    'quick': {'evaluations': 30000, 'equal_pairs': 15000, 'token_perturbations': 3000, 'child_perturbations': 2500,
+    'quick': {'edited_vs_reparse_pairs': 1500, 'edited_vs_reparse_other_structure': 150, 'slot_perturbations': 80, 'evaluations': 30000, 'equal_pairs': 15000, 'token_perturbations': 3000, 'child_perturbations': 2500,
               'attribution_perturbations': 500, 'type_perturbations': 300, 'class_fields_perturbed': 120, 'token_law_pairs': 10000,
               'whole_file_text_perturbations': 3000, 'token_law_after_edit': 3000, 'documents_in_small_blocks': 400, 'container_copy_pairs': 900, 'same_span_parent_child_pairs': 2000, 'same_text_same_tree_pairs': 300, 'models_with_custom_indent_by': 200,
               'submodel_copies': 4000},
